@@ -9,14 +9,17 @@ pub fn vx_vec_reverse<T>(v: &mut Vec<T>)
 { v.reverse() }
 
 /// R-method-map: `v.retain(f)` => `vx_vec_retain(&mut v, f)`: keeps, in order, exactly the elements on
-/// which the predicate returned true (operational contract, see iter_model.rs)
+/// which the predicate returned true (operational contract, see iter_model.rs): `retain_keep(old, new)` is
+/// the vector of the predicate's answers.
+pub uninterp spec fn retain_keep<T>(before: Seq<T>, after: Seq<T>) -> Seq<bool>;
+
 #[verifier::external_body]
 pub fn vx_vec_retain<T, F: Fn(&T) -> bool>(v: &mut Vec<T>, f: F)
     requires forall|i: int| 0 <= i < old(v)@.len() ==> call_requires(f, (&#[trigger] old(v)@[i],))
     ensures
-        exists|keep: Seq<bool>| keep.len() == old(v)@.len()
-            && (forall|i: int| 0 <= i < keep.len() ==> call_ensures(f, (&#[trigger] old(v)@[i],), keep[i]))
-            && final(v)@ == filter_by(old(v)@, keep),
+        retain_keep(old(v)@, final(v)@).len() == old(v)@.len(),
+        forall|i: int| 0 <= i < old(v)@.len() ==> call_ensures(f, (&old(v)@[i],), #[trigger] retain_keep(old(v)@, final(v)@)[i]),
+        final(v)@ == filter_by(old(v)@, retain_keep(old(v)@, final(v)@)),
 { v.retain(f) }
 
 /// the subsequence of s at the positions where keep is true
